@@ -1018,6 +1018,7 @@ pub const HANDWRITTEN: &[(&str, &str)] = &[
     ("doc:worlds", include_str!("docs/worlds.wac")),
     ("doc:tracks", include_str!("docs/tracks.wac")),
     ("doc:tracks2", include_str!("docs/tracks2.wac")),
+    ("doc:comments", include_str!("docs/comments.wac")),
 ];
 
 pub fn handwritten_cases() -> Vec<DocCase> {
